@@ -340,19 +340,27 @@ SCRIPT_FAULTS = {
     'raise-first': lambda t: "raise RuntimeError('injected')\n" + t,
     'raise-last': lambda t: t + "raise RuntimeError('injected')\n",
     'exit-3': lambda t: t + "import sys\nsys.exit(3)\n",
+    # an exit status is taken modulo 256 by the operating system
+    'exit-256': lambda t: t + "exit(256)\n",
     'dup-output': lambda t: t + ("executable('prog', files=['main.c'])\n"),
 }
 
 
 def script_fault_ops(rng, sim):
     what = rng.choice(sorted(SCRIPT_FAULTS))
+    if os.path.exists(sim.world.s('options.bfg')) and rng.random() < 0.25:
+        # the options script raises (here: it opens a file that is missing)
+        text = sim.world.read('options.bfg')
+        new = text + "open('no/such/file.txt')\n"
+        return [['write', 'options.bfg', new]], text, 'options-raises', \
+            'options.bfg'
     text = sim.world.read('build.bfg')
     if what == 'raise-first':
         # keep the generated header comment first
         new = text.replace('\n', "\nraise RuntimeError('injected')\n", 1)
     else:
         new = SCRIPT_FAULTS[what](text)
-    return [['write', 'build.bfg', new]], text, what
+    return [['write', 'build.bfg', new]], text, what, 'build.bfg'
 
 
 def coordinates(events, rng, how_many=None):
@@ -419,6 +427,26 @@ def run_case(seed, root, params=None):
         followups = [['attempt', rng.choice(follow_kinds)]
                      for _ in range(n_follow)]
         script_mode = rng.random() < 0.2 and victim != 'first-configure'
+        # the project moves on between the interrupted run and the next
+        # attempt: the trigger edit is taken back, or a file appears in a
+        # directory the interrupted run was (or was not yet) told to watch
+        post_edits = []
+        if not script_mode and victim != 'first-configure' and \
+           rng.random() < 0.35:
+            x = rng.random()
+            e0 = edits[0] if edits else None
+            if e0 and e0[0] == 'write' and label == 'add_matching' and \
+               x < 0.5:
+                post_edits = [['remove', e0[1]]]
+            elif e0 and e0[0] == 'mkdir' and x < 0.8:
+                rel = '{}/late{}.c'.format(e0[1], rng.randrange(100))
+                post_edits = [['write', rel, G.c_source(rel)]]
+            else:
+                lib0 = next(s_ for s_ in proj.stmts('find')
+                            if s_.var == 'lib_src')
+                rel = '{}/late{}.c'.format(lib0.facts['base'],
+                                           rng.randrange(100))
+                post_edits = [['write', rel, G.c_source(rel)]]
         w.save_state(saved)
         base_ops = pre_ops + edits
 
@@ -439,8 +467,8 @@ def run_case(seed, root, params=None):
             return h
 
         if script_mode:
-            fops, orig_text, what = script_fault_ops(rng, sim)
-            fix = [['write', 'build.bfg', orig_text + '# fixed\n']] \
+            fops, orig_text, what, fname = script_fault_ops(rng, sim)
+            fix = [['write', fname, orig_text + '# fixed\n']] \
                 if rng.random() < 0.6 else []
             one({'kind': 'script', 'what': what}, fops, fix)
         else:
@@ -478,7 +506,7 @@ def run_case(seed, root, params=None):
                 else 'scenarios_sampled'
             stats[key] = stats.get(key, 0) + 1
             for fault in coordinates(events, rng, n):
-                h = one(fault)
+                h = one(fault, post_victim=post_edits)
                 if h.violations and not params.get('all_points'):
                     break
             if rng.random() < 0.3 and events:
@@ -495,7 +523,8 @@ def run_case(seed, root, params=None):
         if not os.environ.get('BFGSIM_KEEP'):
             w.destroy()
     return {'proj': proj, 'cfg': cfg, 'results': results, 'stats': stats,
-            'victim': victim, 'trigger': label, 'script_mode': script_mode}
+            'victim': victim, 'trigger': label, 'script_mode': script_mode,
+            'post_edits': bool(post_edits)}
 
 
 # -- check interface --------------------------------------------------------------
@@ -573,6 +602,8 @@ def summarise(case):
         out_v = out_v[:1]
     stats = dict(case['stats'])
     stats['scenarios'] = 1
+    if case.get('post_edits'):
+        stats['scenarios_with_edit_before_attempt'] = 1
     stats['crash_points'] = len(case['results'])
     first = case['results'][0] if case['results'] else None
     return {
